@@ -1,14 +1,23 @@
 """C13 - Endpoints served equal the registries' latest healthy members of the subset.
 
-Proof: lean/IstioModel/C13/Theorems.lean (sequential refinement of the abstract map
-(service, namespace, registry) -> endpoints, no residue, push-type soundness).
-Tie: T-diff - random sequential op sequences on the REAL model.EndpointIndex vs the Lean model,
-line by line (stream index).
-On break: harness `oracle` evaluates the property's clauses directly on the real index.
+Proof (lean/IstioModel/C13):
+  Theorems.lean      the endpoint index as a sequential object: refinement of the abstract map
+                     (service, namespace, registry) -> endpoints, latest report kept, no residue,
+                     push-type soundness, service-account change => FullPush, cache invalidation;
+  ConcTheorems.lean  the index at lock-region granularity: index_linearizable for the repaired code
+                     (all operations, goroutines, schedules), lost_update_witness_unfixed (F4) and
+                     the partial theorem for the pinned code;
+  ClaTheorems.lean   membership_exact, grouping by locality, weights_consistent for
+                     BuildClusterLoadAssignment; EndToEnd.lean composes the three.
+Tie (T-diff, every run): stream `index` - random sequential op sequences on the REAL
+  model.EndpointIndex; stream `sched` - real goroutines parked/released at the verif gate points in
+  scripted orders; stream `cla` - index operations + membership queries through the REAL
+  endpoints.NewEndpointBuilder(...).BuildClusterLoadAssignment of a FakeDiscoveryServer.
+On break: harness `oracle` states the property's clauses directly on the real index / CLA.
 """
 import os
 
-THEOREMS = ["IstioModel.C13.Theorems", "IstioModel.C13.ConcTheorems", "IstioModel.C13.ClaTheorems"]
+THEOREMS = ["IstioModel.C13.Theorems", "IstioModel.C13.ConcTheorems", "IstioModel.C13.ClaTheorems", "IstioModel.C13.EndToEnd"]
 STREAMS = ("index", "sched", "cla")
 
 
@@ -58,14 +67,30 @@ def oracle(ctx, stream, case_lines, rep):
 
 
 def run(ctx):
-    ctx.rule = ("cases = random sequential histories (1-30 ops) of UpdateServiceEndpoints / DeleteServiceShard / DeleteShard / "
+    ctx.rule = ("index: random sequential histories (1-30 ops) of UpdateServiceEndpoints / DeleteServiceShard / DeleteShard / "
                 "PruneShard over 2-3 services x 2-3 registries; reports are fresh lists or small mutations of the registry's "
-                "previous report (identical, health flip, unhealthy addition, removal, service-account change, reorder, "
-                "duplicate key); distinct = hash of (ops, implementation outputs); non-trivial = at least one op")
+                "previous report (identical, health flip, unhealthy addition, removal, service-account change, reorder, duplicate key). "
+                "sched: 0-2 sequential ops, then 1-3 real goroutines running UpdateServiceEndpoints, parked at the gates "
+                "lookup:after-miss / update:after-lookup and released in a scripted order, interleaved with deletes / prunes / "
+                "updates executed by the scheduler; every case ends with the linearizability verdict over all interval-respecting "
+                "orders. cla: 1-5 index ops on one of 4 services (plain, persistent-session, cluster-local, node-local), then "
+                "queries (port 80/81/unknown, 6 subsets, 3 proxies with different cluster/network view/node, unhealthy on/off). "
+                "distinct = hash of (ops, implementation outputs); non-trivial = at least one op")
     ctx.assumptions = [
-        "sync.Mutex / RWMutex give atomic critical sections (lock-region granularity of the concurrent model)",
+        "sync.Mutex / RWMutex give atomic critical sections (lock-region granularity of the concurrent model); DeleteShard / "
+        "PruneShard are modelled as one region (their per-entry sections commute with write regions on other entries)",
         "IstioEndpoint.Equals is modelled on the 19 fields it reads; labels are compared as key-sorted lists",
+        "membership model: sidecar proxy, no network gateways (EndpointsByNetworkFilter is the identity), ambient multi-network off, "
+        "no waypoint / self-discovery / inference-pool cluster, no HBONE tunnel labels, no locality-LB distribute/failover "
+        "(priorities stay 0); netutil.IsValidIPAddress abstracted to a character-class test that agrees on the generated addresses",
+        "every IstioEndpoint on the cluster's port has at least one address (possibly empty string): all registries guarantee it; "
+        "BuildClusterLoadAssignment indexes Addresses[0] before filterIstioEndpoint's len(Addresses)==0 guard",
+        "pushType_sound's last clause assumes distinct endpoint keys inside one shard (noPush_dupkey_witness shows the corner)",
     ]
+    ctx.trusted.append("pilot/pkg/model/zz_verif_c13.go + zz_verif_c13_noop.go and the three verifGate(...) lines in endpointshards.go "
+                       "(gate points; empty inlinable function without the build tag)")
+    ctx.trusted.append("pilot/test/xds FakeDiscoveryServer and the world description in harness/c13/cla.go (services, DestinationRule "
+                       "subsets, proxies) whose derived builder parameters the generator writes into the cla query lines")
     proved = ctx.lean_prove(THEOREMS)
     if not ctx.build_drv():
         return
@@ -127,8 +152,31 @@ def replay(ctx, path):
 
 
 MANIFEST = {
-    "level_text": "TBD",
-    "level_note": "TBD",
-    "technique": "Lean 4 theorems over an exact model of the endpoint index + differential correspondence with the real Go functions",
+    "level_text": ("Lean 4 proof over exact models of pilot/pkg/model/endpointshards.go and of the membership part of "
+                   "pilot/pkg/xds/endpoints/endpoint_builder.go. Sequential: every index operation refines the abstract map "
+                   "(service, namespace, registry) -> endpoints (index_sequential_spec), so after any history a cell holds the "
+                   "registry's latest report and nothing of a deleted service / removed or pruned registry remains "
+                   "(latest_report_kept, removed_stays_removed, no_residue_*); NoPush only if the served membership of the shard is "
+                   "unchanged, service-account change or new service => FullPush (pushType_sound, noPush_served_unchanged, "
+                   "sa_change_forces_full). Concurrent: for the repaired code (fix 16f5918) every interleaving of the lock regions of "
+                   "any number of operations is equivalent to their sequential execution in commit order (index_linearizable, "
+                   "reads_linearizable); for the pinned code the statement is refuted by a 2-operation 4-region schedule "
+                   "(lost_update_witness_unfixed, F4) and proved on orphan-free schedules. Membership: the ClusterLoadAssignment is "
+                   "a permutation of the read shards' endpoints that satisfy port / address / subset / health / discoverability / "
+                   "network-view / cluster- and node-locality (membership_exact), one non-empty group per locality, weights = "
+                   "saturating sums (grouped_by_locality, weights_consistent); served_endpoints_exact(_concurrent) composes the parts. "
+                   "The models are tied to /repo on every run by three line-by-line differentials against the real code."),
+    "level_note": ("Trusted: Lean kernel + {propext, Classical.choice, Quot.sound}; the hand-written models, tied by differential testing "
+                   "(quick ~4500 cases / thorough ~90000: sequential op sequences on the real EndpointIndex; real goroutines parked and "
+                   "released at three verif gate points in scripted orders, with a linearizability verdict computed on the real code; "
+                   "CLA queries through the real endpoint builder of a FakeDiscoveryServer with an independent membership oracle); the "
+                   "gate hook pilot/pkg/model/zz_verif_c13*.go; mutex atomicity. Not modelled: multi-network gateway substitution "
+                   "(EndpointsByNetworkFilter), locality-LB priorities / failover / distribute (loadbalancer.ApplyToLoadAssignment), "
+                   "waypoint, self-discovery, inference-pool and HBONE-tunnel endpoints, CDS-time FromServiceEndpoints; DeleteShard / "
+                   "PruneShard are single regions in the concurrent model; linearizability is about index state (returned push types "
+                   "may over-push under races). F4 (lost update when a delete unlinks the shard set inside an update's "
+                   "lookup->lock window) was reproduced deterministically and is fixed in /repo by 16f5918."),
+    "technique": ("Lean 4 theorems over exact models of the endpoint index (sequential and lock-region concurrent) and of EDS membership "
+                  "+ differential correspondence with the real Go code, including scripted goroutine interleavings through gate hooks"),
     "design_ref": "DESIGN.md section 5 C13",
 }
